@@ -1,6 +1,7 @@
 (* Judge of the C17 correspondence suite.
    case = (model case record, implementation: values after the pipeline (None when unavailable),
-           query outcome of the verification backend, query outcome of the stock test backend) *)
+           query outcome of the verification backend, of the verification backend with in-expressions,
+           query outcome of the stock test backend) *)
 From Coq Require Import NArith List Bool.
 From PS Require Import Base.Chars Base.Outcome Model.SString Model.PyRegex Model.Placeholder
                        Spec.Items Spec.Expand Proofs.PlaceholderP Run.Bits.
@@ -36,33 +37,39 @@ Definition oclass_eqb (a b : outcome str) : bool :=
   | _, _ => false
   end.
 
-Definition count_pct (s : str) : nat := length (filter (N.eqb c_pct) s).
-Definition sval_pct (x : sval) : nat :=
+(* characters that only occur in a query as literal characters of a value: the percent sign (placeholder
+   syntax) and the braces (template syntax of query expressions) *)
+Definition is_mark (c : char) : bool := N.eqb c c_pct || N.eqb c 123 || N.eqb c 125.
+Definition count_marks (s : str) : nat := length (filter is_mark s).
+Definition sval_marks (x : sval) : nat :=
   match x with
-  | XS l | XR l => length (filter (fun i => match i with Lit c => N.eqb c c_pct | _ => false end) l)
-  | XQ t => count_pct t
+  | XS l | XR l => length (filter (fun i => match i with Lit c => is_mark c | _ => false end) l)
+  | XQ t => count_marks t
   end.
-(* stock TextQueryTestBackend on the same rule and pipeline: it fails exactly when a failure is expected,
-   and otherwise its query contains exactly the percent signs that are literal characters of the expected values *)
+(* stock TextQueryTestBackend on the same rule and pipeline, looked at as a whole: it fails exactly when a
+   failure is expected, and otherwise its query contains exactly the percent signs and braces that are literal
+   characters of the expected values or of the finished query expressions - no %name%, {field} or {id} is
+   left anywhere, whatever template (in-list, startswith, ...) the backend chose *)
 Definition stock_ok (exp : list (option (list sval))) (r : outcome str) : bool :=
   match all_some exp with
   | None => match r with SigmaErr _ => true | _ => false end
   | Some groups => match r with
-                   | Ok q => Nat.eqb (count_pct q) (fold_right (fun x n => (sval_pct x + n)%nat) 0%nat (concat groups))
+                   | Ok q => Nat.eqb (count_marks q) (fold_right (fun x n => (sval_marks x + n)%nat) 0%nat (concat groups))
                    | _ => false
                    end
   end.
 
-Definition judge_expand (x : case * option (list value) * outcome str * outcome str) : N :=
-  let '(c, ipipe, iq, istock) := x in
+Definition judge_expand (x : case * option (list value) * outcome str * outcome str * outcome str) : N :=
+  let '(c, ipipe, iq, iqin, istock) := x in
   let m := run c in
   let agree :=
     match run_pipeline c with
     | Ok vals => option_eqb (list_eqb value_eqb) ipipe (Some vals)
     | _ => true
-    end && ostr_eqb m iq && oclass_eqb m istock in
+    end && ostr_eqb m iq && ostr_eqb (run_in c) iqin && oclass_eqb m istock in
   let exp := expected c in
-  let spec := s_accepts (lhs_of c) (c_all c) exp iq && stock_ok exp istock in
+  let spec := s_accepts (lhs_of c) (c_all c) exp iq && s_accepts_in (lhs_of c) (c_all c) exp iqin
+              && stock_ok exp istock in
   let dom := match all_some exp with Some groups => flat_ok (c_all c) groups | None => true end in
   let nontriv := existsb (fun s => match s_source (c_re c) (map to_smod (c_mods c)) s with
                                    | Some (XS l) | Some (XR l) => match ph_of l with [] => false | _ => true end
@@ -73,7 +80,7 @@ Definition judge_expand (x : case * option (list value) * outcome str * outcome 
    changed in between. Every step is judged by the unchanged single-conversion judge against the table
    current at that step: conversion has no memory. Bits are combined: all steps agree / all accepted /
    all in the domain / some step non-trivial. *)
-Definition judge_history (l : list (case * option (list value) * outcome str * outcome str)) : N :=
+Definition judge_history (l : list (case * option (list value) * outcome str * outcome str * outcome str)) : N :=
   let bs := map judge_expand l in
   bits (forallb (fun b => N.testbit b 0) bs) (forallb (fun b => N.testbit b 1) bs)
        (forallb (fun b => N.testbit b 2) bs) (existsb (fun b => N.testbit b 3) bs).
